@@ -118,8 +118,12 @@ fn tampers(tx: &Transaction, spent: &[TxOut], stride: usize) -> Vec<(String, Tra
             // script of a blinded output changed (the range proof commits to it)
             let mut t = tx.clone();
             let mut s = o.script_pubkey.to_bytes();
-            let l = s.len() - 1;
-            s[l] ^= 1;
+            if s.is_empty() {
+                s.push(0x6a);
+            } else {
+                let l = s.len() - 1;
+                s[l] ^= 1;
+            }
             t.output[j].script_pubkey = Script::from(s);
             push("blinded-output-script-changed".into(), t, spent.to_vec());
         }
@@ -358,7 +362,7 @@ fn check_explicit(r: &Report, m: &Explicit) {
 fn explicit_models(thorough: bool) -> Vec<Explicit> {
     let mut out = Vec::new();
     let in_vals: &[u64] = if thorough { &[1, 2, 3] } else { &[1, 2] };
-    let isss: Vec<(u64, u64)> = if thorough { vec![(0, 0), (1, 0), (2, 0), (0, 1), (1, 1), (2, 1), (1, 2), (2, 2)] } else { vec![(0, 0), (1, 0), (2, 1)] };
+    let isss: Vec<(u64, u64)> = if thorough { vec![(0, 0), (1, 0), (2, 0), (0, 1), (1, 1), (2, 1), (1, 2), (2, 2)] } else { vec![(0, 0), (1, 0), (2, 1), (0, 1)] };
     let mut in_sets: Vec<Vec<(u8, u64)>> = Vec::new();
     for a in 0..2u8 {
         for &v in in_vals {
@@ -463,8 +467,9 @@ pub fn run(r: &Report) {
     let thorough = r.tier.thorough();
     let stride = r.tier.pick(64usize, 1);
     r.set_rule(
-        "(a) verifying transactions: a C04 sub-grid (1..3 inputs, explicit/confidential spent outputs, one/two assets, issuance, reissuance, \
-         1..3 marked outputs in all positions) + the repository's real-network transaction; tampers at EVERY applicable position: explicit \
+        "(a) verifying transactions: a C04 sub-grid (1..3 inputs, explicit/confidential spent outputs, one/two assets, issuance, token-only issuance, reissuance, \
+         1..3 marked outputs in all positions) + 6 transactions with a blinded output on a provably unspendable script (OP_RETURN data / bare OP_RETURN / empty) \
+         + the repository's real-network transaction; tampers at EVERY applicable position: explicit \
          amount +-1 (outputs, fee), asset swapped, value / asset commitment replaced by another valid one and by each other output's, made \
          explicit, each range / surjection proof removed, exchanged with each other output's, truncated, bit-flipped (every byte in thorough, \
          stride 64/16 in quick), script of each blinded output changed, issuance amount +-1 / removed / tokens+1 / entropy changed, each spent \
@@ -483,6 +488,12 @@ pub fn run(r: &Report) {
     if let Some((_, tx, _)) = cases.first() {
         r.sample(json!({"base_tx_outputs": tx.output.len(), "tamper_classes_example": ["rangeproof-bit-flipped", "value-commitment-from-other-output", "spent-output-asset-changed/confidential"]}));
     }
+    let burns = burn_cases(r.seed);
+    r.set_extra("blinded_burn_base_transactions", json!(burns.len()));
+    if burns.len() < 6 {
+        r.machinery("could not build the blinded-burn base transactions");
+    }
+    burns.par_iter().for_each(|(label, tx, spent)| check_tampers(r, label, tx, spent, stride));
     // repository vector (transaction::tests::verify_ct): 1 confidential input, 2 CT outputs + fee
     if let Some((tx, spent)) = repo_vector() {
         check_tampers(r, "repository-vector", &tx, &spent, stride.max(16));
@@ -498,6 +509,49 @@ pub fn run(r: &Report) {
     r.not_exhaustive();
     r.assume("base transactions come from C04's scenario product with a fixed RNG stream (sampled dimension); tamper positions are enumerated completely, proof bit positions at the stated stride");
     r.assume("not demanded: changing the script or nonce of a spent output (not committed by amount verification), identity of the error variant beyond the length case; libsecp256k1-zkp trusted");
+}
+
+/// Verifying transactions with a BLINDED output on a provably unspendable script (OP_RETURN data, empty script),
+/// built through with_txout_secrets / with_secrets_last (Transaction::blind only handles address scripts).
+fn burn_cases(seed: u64) -> Vec<(String, Transaction, Vec<TxOut>)> {
+    let s = secp();
+    let mut out = Vec::new();
+    for (k, burn_script) in [Script::from(vec![0x6a, 0x01, 0x42]), Script::new(), Script::from(vec![0x6a])].into_iter().enumerate() {
+        for conf_in in [false, true] {
+            let sc = Scenario {
+                inputs: vec![c04::InSpec { asset: 0, conf: conf_in, issuance: None }],
+                outputs: vec![
+                    c04::OutSpec { asset: 0, value: 30 + k as u64, kind: OutKind::Marked(2) },
+                    c04::OutSpec { asset: 0, value: 12, kind: OutKind::Marked(3) },
+                    c04::OutSpec { asset: 0, value: 2, kind: OutKind::Fee },
+                ],
+                rng_stream: k as u64,
+            };
+            let b = c04::build(&sc);
+            let mut rng = DetRng::new(seed, 0xC05B, k as u64 * 2 + conf_in as u64);
+            let abf0 = AssetBlindingFactor::from_slice(gen::tweak(7300 + k as u64).as_ref()).unwrap();
+            let vbf0 = ValueBlindingFactor::from_slice(gen::tweak(7400 + k as u64).as_ref()).unwrap();
+            let abf1 = AssetBlindingFactor::from_slice(gen::tweak(7500 + k as u64).as_ref()).unwrap();
+            let rpk0 = zkp::PublicKey::from_secret_key(s, &b.receiver[0].unwrap());
+            let rpk1 = zkp::PublicKey::from_secret_key(s, &b.receiver[1].unwrap());
+            let sec0 = elements::TxOutSecrets::new(b.out_assets[0], abf0, 30 + k as u64, vbf0);
+            let built = guard(|| -> Result<Transaction, String> {
+                // the burn output carries the unspendable script
+                let o0 = TxOut::with_txout_secrets(&mut rng, s, burn_script.clone(), rpk0, gen::sk(7600 + k as u64), sec0, &b.secrets).map_err(|e| format!("{:?}", e))?;
+                let fee_sec = elements::TxOutSecrets::new(c04::asset_a(), AssetBlindingFactor::zero(), 2, ValueBlindingFactor::zero());
+                let (o1, _) = TxOut::with_secrets_last(&mut rng, s, 12, b.tx.output[1].script_pubkey.clone(), rpk1, b.out_assets[1], gen::sk(7700 + k as u64), abf1, &b.secrets, &[&sec0, &fee_sec])
+                    .map_err(|e| format!("{:?}", e))?;
+                let mut tx = b.tx.clone();
+                tx.output[0] = o0;
+                tx.output[1] = o1;
+                Ok(tx)
+            });
+            if let Ok(Ok(tx)) = built {
+                out.push((format!("blinded-output-on-unspendable-script/{}", ["op_return-data", "empty", "op_return"][k]), tx, b.spent));
+            }
+        }
+    }
+    out
 }
 
 /// the blinded transaction + its spent output pinned in the doc example of verify_tx_amt_proofs
